@@ -162,6 +162,10 @@ func c11Body(s *simkit.Sim, rc *simkit.RunCtx) {
 		if err != nil {
 			return
 		}
+		// an answer that is another list than the one asked for (hostile server, see list-swap below) is not a list the node received
+		if a, _ := url.PathUnescape(id); a != mustUnescape(rec.URL) {
+			return
+		}
 		mu.Lock()
 		defer mu.Unlock()
 		// the node knows a downloaded list once the operation that downloaded it has finished
@@ -247,6 +251,38 @@ func c11Body(s *simkit.Sim, rc *simkit.RunCtx) {
 		}
 		f.Filter = func(kind, site string) bool { return strings.Contains(site, "/statuslist/") }
 	}
+	// ---- hostile list server: a verification that asks for list U is answered with a validly signed, but other and older list V
+	// (the first version of V that was ever served). The node must not take it for U, and must not take it for V either.
+	verifying := map[string]bool{}
+	if s.D.Decide("list-swap", 4) == 3 {
+		sample.FaultKinds = append(sample.FaultKinds, "http.list-swapped")
+		firstCopy := map[string][]byte{}
+		var firstOrder []string
+		w.HTTP.TamperResponse = func(req *http.Request, status int, body []byte) []byte {
+			if req.Method != "GET" || status != 200 || !strings.Contains(req.URL.Path, "/statuslist/") {
+				return body
+			}
+			asked := mustUnescape(req.URL.String())
+			mu.Lock()
+			if _, ok := firstCopy[asked]; !ok {
+				firstCopy[asked] = body
+				firstOrder = append(firstOrder, asked)
+			}
+			isVerify := verifying[s.Label()]
+			var other []byte
+			for _, u := range firstOrder {
+				if u != asked {
+					other = firstCopy[u]
+				}
+			}
+			mu.Unlock()
+			if !isVerify || other == nil || s.D.Decide("swap-this-answer", 4) != 0 {
+				return body
+			}
+			s.Faults.Inc("http.list-swapped")
+			return other
+		}
+	}
 	// ---- storage faults inside revocations (the other operations of the workload are spared: their oracles assume a working issuer) ----
 	revoking := map[string]bool{}
 	if s.D.Decide("sql-faults-in-revoke", 3) == 2 {
@@ -291,8 +327,12 @@ func c11Body(s *simkit.Sim, rc *simkit.RunCtx) {
 		mu.Lock()
 		verifyOps = append(verifyOps, op)
 		mu.Unlock()
+		mu.Lock()
+		verifying[op.label] = true
+		mu.Unlock()
 		ok, msg := verify(c)
 		mu.Lock()
+		delete(verifying, op.label)
 		op.end = s.Steps
 		promote(op.label)
 		mu.Unlock()
@@ -619,4 +659,11 @@ func c11Body(s *simkit.Sim, rc *simkit.RunCtx) {
 		s.Probes.Inc("page-rolled-over")
 	}
 	rc.Nontrivial = len(all) > 2 && (s.NonFIFO > 0 || len(s.Faults.Map()) > 0)
+}
+
+func mustUnescape(u string) string {
+	if x, err := url.PathUnescape(u); err == nil {
+		return x
+	}
+	return u
 }
